@@ -7,6 +7,13 @@ def udp_suite(name, mask, monitor=None, count_quick=480, count_thorough=6000):
                 check="udp_code %d udp_small_cap" % mask, monitor=monitor,
                 count_quick=count_quick, count_thorough=count_thorough, nontrivial_bits=3)
 
+HTTP_CASE = "nat * nat * list (hop * hout)"
+
+def http_suite(name, mask, monitor=None, count_quick=400, count_thorough=5000):
+    return dict(name=name, harness="http-swarm", imports=["HttpCheck", "Consts", "Monitors"], case_type=HTTP_CASE,
+                check="http_code %d http_small_cap" % mask, monitor=monitor,
+                count_quick=count_quick, count_thorough=count_thorough, nontrivial_bits=3)
+
 PROPS = {}
 
 PROPS["C01"] = dict(
@@ -21,11 +28,22 @@ PROPS["C01"] = dict(
 )
 
 PROPS["C02"] = dict(
-    suites=[udp_suite("udp-swarm-peers", 0b00010, monitor="mon_c02")],
+    suites=[udp_suite("udp-swarm-peers", 0b00010, monitor="mon_c02", count_quick=320),
+            http_suite("http-swarm-peers", 0b00010, monitor="mon_c02_http", count_quick=320)],
     rule="same histories as C01 (real aquatic_udp TorrentMaps); compared: the exact reply peer list of every announce against the model under "
          "some offset pair the model allows; non-trivial = history crosses inline->heap->inline",
     modelled="extract_response_peers (udp, http: identical text) and the numwant/limit computation are modelled in coq/Model/PeerMap.v",
     assumptions=["the rand crate's random_range(a..b) returns a value in [a,b) (the offsets are universally quantified in the theorems)"],
+)
+
+PROPS["C07"] = dict(
+    suites=[http_suite("http-swarm-counts", 0b01011, monitor="mon_c07")],
+    rule="histories of 8..67 announce/scrape/clean ops on the real aquatic_http swarm storage (hook H5, mock clock H1) over 4 info hashes, "
+         "8 addresses (v4, v6, v4-mapped), ports incl. 0 and 65535, all events, left in {0,1,usize::MAX}, numwant None/0/1..9/usize::MAX, "
+         "max_peers in {0..7,50}, max_scrape_torrents in {0,1,2,3,100}, repeated hashes in one scrape, cleaning at deadline-1/deadline/+1, "
+         "all three access-list modes; non-trivial = history crosses inline->heap->inline",
+    modelled="crates/http/src/workers/swarm/storage.rs is modelled by hand in coq/Model/HttpSwarm.v over the shared PeerMap.v",
+    assumptions=["one swarm worker (sharding is C16)", "IndexMap / ArrayVec / BTreeMap semantics as modelled"],
 )
 
 LEVELS = {
@@ -42,6 +60,13 @@ LEVELS = {
         design_ref="DESIGN.md §7 C02", technique="Coq arithmetic/list proofs + in-Coq correspondence of reply peer lists",
         note="Trusted: Coq kernel, model of extract_response_peers, harness; rand's range contract."),
 }
+
+LEVELS["C07"] = dict(
+    text="Refinement theorem (Coq, induction over all histories, any capacity / limits / offsets): the model of the http swarm storage never "
+         "panics, shows the reference tracker's complete/incomplete counts, scrapes each of the first max_scrape_torrents hashes once, "
+         "and a cleaning pass leaves no empty torrent; tied to the real storage by in-Coq comparison of generated histories.",
+    design_ref="DESIGN.md §7 C07", technique="Coq refinement proof + in-Coq correspondence check against the real http storage",
+    note="Trusted: Coq kernel/vm_compute, model HttpSwarm.v/PeerMap.v, harness with hooks H1/H5. One swarm worker.")
 
 NOT_APPLICABLE = [
     dict(property_id=p, reason="check not built yet in this round (work in progress; planned per DESIGN.md §10)")
